@@ -512,6 +512,106 @@ def poolCount (es : List PoolEntry) : Nat := 1 + (es.map poolSlots).sum
 /-- `constant_pool_count` and the entries -/
 def encPool (es : List PoolEntry) : Bytes := be16 (poolCount es) ++ es.flatMap encPoolEntry
 
+/-! ## annotations (JVMS §4.7.16) -/
+
+mutual
+/-- `element_value` with the pool indices used -/
+inductive SElem where
+  /-- `B C D F I J S Z`: `const_value_index` and the value it denotes (after the narrowing the tag implies) -/
+  | const (tag cp : Nat) (v : Int)
+  | str (cp : Nat) (s : JStr)
+  | enum (tcp : Nat) (ty : JStr) (ncp : Nat) (name : JStr)
+  | cls (cp : Nat) (d : JStr)
+  | anno (a : SAnno)
+  | arr (vs : List SElem)
+/-- `annotation`: type index, type descriptor, element-value pairs -/
+inductive SAnno where
+  | mk (tcp : Nat) (ty : JStr) (pairs : List SPair)
+/-- `element_name_index`, the name, the value -/
+inductive SPair where
+  | mk (ncp : Nat) (name : JStr) (v : SElem)
+end
+
+instance : Inhabited SElem := ⟨.str 0 []⟩
+instance : Inhabited SAnno := ⟨.mk 0 [] []⟩
+
+mutual
+def SElem.encode : SElem → Bytes
+  | .const tag cp _ => tag :: be16 cp
+  | .str cp _ => 115 :: be16 cp
+  | .enum tcp _ ncp _ => 101 :: (be16 tcp ++ be16 ncp)
+  | .cls cp _ => 99 :: be16 cp
+  | .anno a => 64 :: a.encode
+  | .arr vs => 91 :: (be16 vs.length ++ encElems vs)
+def SAnno.encode : SAnno → Bytes
+  | .mk tcp _ ps => be16 tcp ++ (be16 ps.length ++ encPairs ps)
+def SPair.encode : SPair → Bytes
+  | .mk ncp _ v => be16 ncp ++ v.encode
+def encElems : List SElem → Bytes
+  | [] => []
+  | v :: r => v.encode ++ encElems r
+def encPairs : List SPair → Bytes
+  | [] => []
+  | q :: r => q.encode ++ encPairs r
+end
+
+/-- the value a `const_value_index` denotes for a tag (JVMS table 4.7.16.1-A): `B C I S Z` name a `CONSTANT_Integer`
+(narrowed to the type of the tag), `D` a `Double`, `F` a `Float`, `J` a `Long` -/
+def constValue (p : Pool) (tag cp : Nat) : Outcome Int :=
+  match tag with
+  | 66 => do let v ← p.getInteger cp; pure (wrapI8 v)
+  | 67 => do let v ← p.getInteger cp; pure (wrapU16 v)
+  | 68 => do let v ← p.getDouble cp; pure (v : Int)
+  | 70 => do let v ← p.getFloat cp; pure (v : Int)
+  | 73 => p.getInteger cp
+  | 74 => p.getLong cp
+  | 83 => do let v ← p.getInteger cp; pure (wrapI16 v)
+  | 90 => do let v ← p.getInteger cp; pure (if v != 0 then 1 else 0)
+  | _ => .err
+
+mutual
+def SElem.Legal (p : Pool) : SElem → Prop
+  | .const tag cp v => cp < 65536 ∧ constValue p tag cp = .ok v
+  | .str cp s => cp < 65536 ∧ p.getUtf8 cp = .ok s
+  | .enum tcp ty ncp name => tcp < 65536 ∧ ncp < 65536 ∧ p.getUtf8 tcp = .ok ty ∧ p.getUtf8 ncp = .ok name
+  | .cls cp d => cp < 65536 ∧ p.getUtf8 cp = .ok d
+  | .anno a => a.Legal p
+  | .arr vs => vs.length < 65536 ∧ elemsLegal p vs
+def SAnno.Legal (p : Pool) : SAnno → Prop
+  | .mk tcp ty ps => tcp < 65536 ∧ p.getUtf8 tcp = .ok ty ∧ ps.length < 65536 ∧ pairsLegal p ps
+def SPair.Legal (p : Pool) : SPair → Prop
+  | .mk ncp name v => ncp < 65536 ∧ p.getUtf8 ncp = .ok name ∧ v.Legal p
+def elemsLegal (p : Pool) : List SElem → Prop
+  | [] => True
+  | v :: r => v.Legal p ∧ elemsLegal p r
+def pairsLegal (p : Pool) : List SPair → Prop
+  | [] => True
+  | q :: r => q.Legal p ∧ pairsLegal p r
+end
+
+mutual
+def SElem.fact : SElem → ElemVal
+  | .const tag _ v => .const tag v
+  | .str _ s => .str s
+  | .enum _ ty _ name => .enum ty name
+  | .cls _ d => .cls d
+  | .anno a => .anno a.fact
+  | .arr vs => .arr (elemFacts vs)
+def SAnno.fact : SAnno → Annotation
+  | .mk _ ty ps => .mk ty (pairFacts ps)
+def SPair.fact : SPair → JStr × ElemVal
+  | .mk _ name v => (name, v.fact)
+def elemFacts : List SElem → List ElemVal
+  | [] => []
+  | v :: r => v.fact :: elemFacts r
+def pairFacts : List SPair → List (JStr × ElemVal)
+  | [] => []
+  | q :: r => q.fact :: pairFacts r
+end
+
+/-- body of a `Runtime(In)VisibleAnnotations` attribute -/
+def encAnnos (as : List SAnno) : Bytes := be16 as.length ++ as.flatMap SAnno.encode
+
 /-! ## attributes of fields, methods and the class; the class file -/
 
 /-- `attributes_count` and the attributes, each framed by name index and length -/
@@ -527,12 +627,19 @@ def classAttrNames : List JStr :=
   [sDeprecated, sSynthetic, sInnerClasses, sEnclosingMethod, sSignature, sSourceFile, sSourceDebugExtension, sRVA, sRIA, sRVTA,
    sRITA, sModule, sModulePackages, sModuleMainClass, sNestHost, sNestMembers, sPermittedSubclasses, sRecord, sBootstrapMethods]
 
+/-- a `Runtime(In)VisibleAnnotations` attribute: name, every annotation legal, body fits `attribute_length` -/
+def annosLegal (p : Pool) (nc : Nat) (visible : Bool) (as : List SAnno) : Prop :=
+  nc < 65536 ∧ p.getUtf8 nc = .ok (if visible then sRVA else sRIA) ∧ as.length < 65536 ∧ (∀ a ∈ as, a.Legal p) ∧
+    (encAnnos as).length < 4294967296
+
 /-- field attributes of the proved fragment (`nc` = pool index of the attribute name) -/
 inductive SFieldAttr where
   | deprecated (nc : Nat)
   | synthetic (nc : Nat)
   | constantValue (nc cp : Nat) (v : ConstantValue)
   | signature (nc cp : Nat) (sig : JStr)
+  /-- `RuntimeVisibleAnnotations` (`visible`) / `RuntimeInvisibleAnnotations` -/
+  | annotations (nc : Nat) (visible : Bool) (as : List SAnno)
   | unknown (nc : Nat) (name : JStr) (bytes : Bytes)
   deriving Inhabited
 
@@ -541,6 +648,7 @@ def SFieldAttr.raw : SFieldAttr → Nat × Bytes
   | .synthetic nc => (nc, [])
   | .constantValue nc cp _ => (nc, be16 cp)
   | .signature nc cp _ => (nc, be16 cp)
+  | .annotations nc _ as => (nc, encAnnos as)
   | .unknown nc _ b => (nc, b)
 
 def SFieldAttr.Legal (p : Pool) : SFieldAttr → Prop
@@ -548,6 +656,7 @@ def SFieldAttr.Legal (p : Pool) : SFieldAttr → Prop
   | .synthetic nc => nc < 65536 ∧ p.getUtf8 nc = .ok sSynthetic
   | .constantValue nc cp v => nc < 65536 ∧ p.getUtf8 nc = .ok sConstantValue ∧ cp < 65536 ∧ p.getConstantValue cp = .ok v
   | .signature nc cp sig => nc < 65536 ∧ p.getUtf8 nc = .ok sSignature ∧ cp < 65536 ∧ p.getUtf8 cp = .ok sig
+  | .annotations nc visible as => annosLegal p nc visible as
   | .unknown nc name b => nc < 65536 ∧ p.getUtf8 nc = .ok name ∧ name ∉ fieldAttrNames ∧ b.length < 4294967296
 
 /-- what an attribute adds to the description of the field; `none`: a second `ConstantValue` / `Signature` -/
@@ -556,6 +665,8 @@ def SFieldAttr.apply (f : FieldFacts) : SFieldAttr → Option FieldFacts
   | .synthetic _ => some { f with synthetic := true }
   | .constantValue _ _ v => if f.constant.isNone then some { f with constant := some v } else none
   | .signature _ _ sig => if f.signature.isNone then some { f with signature := some sig } else none
+  | .annotations _ visible as =>
+    if visible then some { f with rva := f.rva ++ as.map SAnno.fact } else some { f with ria := f.ria ++ as.map SAnno.fact }
   | .unknown _ name b => some { f with attrs := f.attrs ++ [⟨name, b⟩] }
 
 def applyAll {σ α : Type} (step : σ → α → Option σ) : σ → List α → Option σ
@@ -590,6 +701,10 @@ inductive SMethodAttr where
   | code (nc : Nat) (c : CodeLayout)
   | exceptions (nc : Nat) (cps : List Nat) (names : List JStr)
   | signature (nc cp : Nat) (sig : JStr)
+  | annotations (nc : Nat) (visible : Bool) (as : List SAnno)
+  | annotationDefault (nc : Nat) (e : SElem)
+  /-- `MethodParameters`: (name index, name, access flags) -/
+  | methodParameters (nc : Nat) (ps : List (Nat × Option JStr × Nat))
   | unknown (nc : Nat) (name : JStr) (bytes : Bytes)
   deriving Inhabited
 
@@ -599,6 +714,9 @@ def SMethodAttr.raw : SMethodAttr → Nat × Bytes
   | .code nc c => (nc, c.encode)
   | .exceptions nc cps _ => (nc, be16 cps.length ++ cps.flatMap be16)
   | .signature nc cp _ => (nc, be16 cp)
+  | .annotations nc _ as => (nc, encAnnos as)
+  | .annotationDefault nc e => (nc, e.encode)
+  | .methodParameters nc ps => (nc, be8 ps.length ++ ps.flatMap (fun q => be16 q.1 ++ be16 q.2.2))
   | .unknown nc _ b => (nc, b)
 
 def SMethodAttr.Legal (p : Pool) (bsms : Option (List Bsm)) : SMethodAttr → Prop
@@ -608,6 +726,11 @@ def SMethodAttr.Legal (p : Pool) (bsms : Option (List Bsm)) : SMethodAttr → Pr
   | .exceptions nc cps names => nc < 65536 ∧ p.getUtf8 nc = .ok sExceptions ∧ cps.length < 65536 ∧ cps.length = names.length ∧
       ∀ x ∈ cps.zip names, x.1 < 65536 ∧ p.getClass x.1 = .ok x.2
   | .signature nc cp sig => nc < 65536 ∧ p.getUtf8 nc = .ok sSignature ∧ cp < 65536 ∧ p.getUtf8 cp = .ok sig
+  | .annotations nc visible as => annosLegal p nc visible as
+  | .annotationDefault nc e => nc < 65536 ∧ p.getUtf8 nc = .ok sAnnotationDefault ∧ e.Legal p ∧ e.encode.length < 4294967296
+  | .methodParameters nc ps => nc < 65536 ∧ p.getUtf8 nc = .ok sMethodParameters ∧ ps.length < 256 ∧
+      ∀ q ∈ ps, q.1 < 65536 ∧ q.2.2 < 65536 ∧
+        p.getOptional q.1 (fun p i => do let n ← p.getUtf8 i; checked validUnqualified n) = .ok q.2.1
   | .unknown nc name b => nc < 65536 ∧ p.getUtf8 nc = .ok name ∧ name ∉ methodAttrNames ∧ b.length < 4294967296
 
 def SMethodAttr.apply (m : MethodFacts) : SMethodAttr → Option MethodFacts
@@ -616,6 +739,11 @@ def SMethodAttr.apply (m : MethodFacts) : SMethodAttr → Option MethodFacts
   | .code _ c => if m.code.isNone then some { m with code := some c.facts } else none
   | .exceptions _ _ names => if m.exceptions.isNone then some { m with exceptions := some names } else none
   | .signature _ _ sig => if m.signature.isNone then some { m with signature := some sig } else none
+  | .annotations _ visible as =>
+    if visible then some { m with rva := m.rva ++ as.map SAnno.fact } else some { m with ria := m.ria ++ as.map SAnno.fact }
+  | .annotationDefault _ e => some { m with annotationDefault := some e.fact }
+  | .methodParameters _ ps =>
+    if m.params.isNone then some { m with params := some (ps.map fun q => ⟨q.2.1, q.2.2 &&& maskParam⟩) } else none
   | .unknown _ name b => some { m with attrs := m.attrs ++ [⟨name, b⟩] }
 
 structure MethodLayout where
@@ -668,6 +796,7 @@ inductive SClassAttr where
   | nestMembers (nc : Nat) (cps : List Nat) (names : List JStr)
   | permittedSubclasses (nc : Nat) (cps : List Nat) (names : List JStr)
   | bootstrapMethods (nc : Nat) (ms : List SBsm)
+  | annotations (nc : Nat) (visible : Bool) (as : List SAnno)
   | unknown (nc : Nat) (name : JStr) (bytes : Bytes)
   deriving Inhabited
 
@@ -685,6 +814,7 @@ def SClassAttr.raw : SClassAttr → Nat × Bytes
   | .nestMembers nc cps _ => (nc, be16 cps.length ++ cps.flatMap be16)
   | .permittedSubclasses nc cps _ => (nc, be16 cps.length ++ cps.flatMap be16)
   | .bootstrapMethods nc ms => (nc, be16 ms.length ++ ms.flatMap SBsm.encode)
+  | .annotations nc _ as => (nc, encAnnos as)
   | .unknown nc _ b => (nc, b)
 
 def SInner.Legal (p : Pool) (e : SInner) : Prop :=
@@ -710,6 +840,7 @@ def SClassAttr.Legal (p : Pool) : SClassAttr → Prop
   | .permittedSubclasses nc cps names => nc < 65536 ∧ p.getUtf8 nc = .ok sPermittedSubclasses ∧ classRefsLegal p cps names
   | .bootstrapMethods nc ms => nc < 65536 ∧ p.getUtf8 nc = .ok sBootstrapMethods ∧ ms.length < 65536 ∧ (∀ m ∈ ms, m.Legal p) ∧
       (be16 ms.length ++ ms.flatMap SBsm.encode).length < 4294967296
+  | .annotations nc visible as => annosLegal p nc visible as
   | .unknown nc name b => nc < 65536 ∧ p.getUtf8 nc = .ok name ∧ name ∉ classAttrNames ∧ b.length < 4294967296
 
 /-- the description of the class so far and the bootstrap table -/
@@ -731,6 +862,9 @@ def SClassAttr.apply (st : ClassAcc) : SClassAttr → Option ClassAcc
   | .permittedSubclasses _ _ names =>
     if st.1.permittedSubclasses.isNone then some ({ st.1 with permittedSubclasses := some names }, st.2) else none
   | .bootstrapMethods _ ms => if st.2.isNone then some (st.1, some (ms.map fun m => ⟨m.handle, m.args⟩)) else none
+  | .annotations _ visible as =>
+    if visible then some ({ st.1 with rva := st.1.rva ++ as.map SAnno.fact }, st.2)
+    else some ({ st.1 with ria := st.1.ria ++ as.map SAnno.fact }, st.2)
   | .unknown _ name b => some ({ st.1 with attrs := st.1.attrs ++ [⟨name, b⟩] }, st.2)
 
 structure ClassLayout where
